@@ -35,3 +35,16 @@ Definition c02_key (l : lineage) : list Z := canon (lin_value l).
 
 (* lineage of a data type in a brand-new context with the given registrations and configuration *)
 Definition c02_canon (v : value) : list Z := canon v.
+
+(* observations as token lists (what the driver prints; also used by the kernel cross-check) *)
+Definition obs_tokens (o : obs) : list Z :=
+  match o with
+  | ObNone => [0]
+  | ObBool b => [1; if b then 1 else 0]
+  | ObErr e => [2; e]
+  | ObKey l => 3 :: c02_key l
+  | ObData d amb => 4 :: (if amb then 1 else 0) :: ser d
+  end.
+
+Definition c02_run_tokens (fx : bool) (ops : list op) : list (list Z * list Z) :=
+  map (fun p => (obs_tokens (fst p), snd p)) (c02_run fx ops).
